@@ -23,7 +23,7 @@ def run(rep, tier):
                        "(exchange symmetry, rotation invariance, higher-rank blocks, field/energy derivative relation) is not decided.")
     rep.rule("R15.1", "Thole tensor: T = -3 l5 a a^T + l3 I with a the unit vector from A to B; T = T^T; for au3 >= 40 l3 = l5 = R^-3 so tr T = 0; "
                       "damped: l3 = R^-3 (1 - e^-u), l5 = R^-3 (1 - (1+u) e^-u), u = expdamping R^3 s1 s2")
-    rep.rule("R15.2", "monopole: fac1 = 1/|posB - posA| and the charge-charge entry is fac1 * charge")
+    rep.rule("R15.2", "monopole: the charge-charge entry of VSiteA<N> is q_B/|posB - posA| (read off the folded interaction vector)")
     rep.rule("R15.4", "callers that contract VSiteA<N>(A, B) with A's multipole vector Q(A): the 4-component form (charge + dipole of A) is chosen only when rank(A) < 2, "
                       "for every combination of the two ranks; with rank(A) = 2 the 9-component form is used (else A's quadrupole terms are dropped and E(A,B) != E(B,A))")
     rep.rule("R15.5", "StaticSite::Rotate(R, ref) rotates every moment the site carries: position ref + R (pos - ref); dipole components R d whenever rank > 0; "
@@ -105,87 +105,12 @@ def run(rep, tier):
         sw_ok = sw_ok and lo is not None and hi is not None and lo != hi
     rep.check(sw_ok, "R15.1", "damping-switch", "damping applied for au3 < 40", "the damping switch is not a threshold on au3 at 40: %s" % list(cds)[:2], f.loc())
 
-    # ---------------------------------------------------------------- R15.2
-    vs = [g for g in F.funcs if g.qname.endswith("eeInteractor::VSiteA") and g.j["template"] == "instantiation"]
-    if not vs:
-        rep.broken("R15.2", "no instantiation of eeInteractor::VSiteA found")
-    for g in vs:
-        rep.analysed(g)
-        an, bn = [p_["name"] for p_ in g.j["params"][:2]]
-        fg = Fold(g).run()
-        outv = {d_.get("name") for d_ in g.decls.values() if nows(d_.get("type") or "") == nows(g.j["ret"]) and d_.get("name")}
-        v0 = [e for e in fg.events if e["kind"] == "store" and re.match(r"^(\w+)\(0\)$", nows(e["target"])) and nows(e["target"])[:-3] in outv]
-        first = [e for e in v0 if not e["guards"] and not e.get("not")]
-        pA_, pB_ = vec_atoms("getPos(%s)" % an), vec_atoms("getPos(%s)" % bn)
-        d_ = pB_ - pA_
-        want = Fn("getCharge")(S(bn)) / sp.sqrt(sum(x * x for x in d_))
-        ok = len(first) == 1 and v0 and v0[0] is first[0] and not isinstance(first[0]["value"], (tuple, Matrix)) and sp.simplify(first[0]["value"] - want) == 0
-        rep.check(ok, "R15.2", "monopole|%s" % (g.j.get("qname_targs") or g.qname).split("::")[-1], "V(0) starts as q_B / |posB - posA|",
-                  "%s: the charge-charge entry starts as %s (required getCharge(%s)/|getPos(%s) - getPos(%s)|)" % (g.qname, [str(e["value"])[:120] for e in v0[:1]], bn, bn, an), g.loc(), sample=True)
     rep.assumptions += ["the interaction tensor is compared with the Cartesian multipole expansion for traceless quadrupoles in Stone's real spherical components "
                         "(Q20, Q21c, Q21s, Q22c, Q22s); floating-point error of the compiled code and the accuracy of the expansion for finite clusters are not decided",
                         "the field/energy derivative relation is decided only through R15.4 (field and energy are read off the same VSiteA vector)"]
-    check_rank_gating(rep, F)
     check_size_selection(rep, F)
     check_rotate(rep)
     check_interaction_tensor(rep, F)
-
-
-def check_rank_gating(rep, F):
-    from vsa.cases import executes
-    insts = [f for f in F.funcs if f.qname == X + "eeInteractor::VSiteA" and f.j["template"] == "instantiation"]
-    rep.floor("R15.3", len(insts), 2, "instantiations of eeInteractor::VSiteA")
-    for f in insts:
-        rep.analysed(f)
-        m = re.search(r"VSiteA<(\d+)>", f.j.get("qname_targs") or "")
-        if not m:
-            raise AnalysisBroken("VSiteA instantiation without a numeric template argument: %s" % f.j.get("qname_targs"))
-        N = int(m.group(1))
-        ranksA = {1: [0], 4: [0, 1], 9: [0, 1, 2]}.get(N)
-        if ranksA is None:
-            raise AnalysisBroken("VSiteA<%d>: unexpected size" % N)
-        bname = f.j["params"][1]["name"]
-        fo = Fold(f).run()
-        conds = getattr(fo, "conds", {})
-        rank_atom = Fn("getRank")(S(bname))
-        terms = []
-        outvars = {d_.get("name") for d_ in f.decls.values() if nows(d_.get("type") or "") == nows(f.j["ret"]) and d_.get("name")}
-        for e in fo.events:
-            if e["kind"] != "store":
-                continue
-            t = nows(e["target"])
-            vn = t.split("(")[0].split(".")[0]
-            if not re.match(r"^\w+(\(0\)|\.segment\((1,3|4,5)\))$", t) or vn not in outvars:
-                continue
-            a = 0 if t.endswith("(0)") else (1 if "segment(1,3)" in t else 2)
-            v = e["value"]
-            sv = nows(str(v))
-            bs = set()
-            if "getCharge(%s)" % bname in sv:
-                bs.add(0)
-            if "segment(Q(%s),1,3)" % bname in sv:
-                bs.add(1)
-            if "segment(Q(%s),4,5)" % bname in sv:
-                bs.add(2)
-            if len(bs) != 1:
-                raise AnalysisBroken("VSiteA<%d>: the store to %s uses the moments %s of site B (expected exactly one kind)" % (N, e["target"], sorted(bs)))
-            terms.append((a, bs.pop(), e))
-        for a in ranksA:
-            for b in (0, 1, 2):
-                for rb in range(b, 3):
-                    hits = []
-                    for a_, b_, e in terms:
-                        if (a_, b_) != (a, b):
-                            continue
-                        x = executes(e, {rank_atom: sp.Integer(rb)}, None, None, conds)
-                        if x is None:
-                            raise AnalysisBroken("VSiteA<%d>: cannot decide whether the (%d,%d) block is accumulated for rank(B) = %d" % (N, a, b, rb))
-                        if x:
-                            hits.append(e)
-                    rep.check(len(hits) == 1, "R15.3", "VSiteA<%d>|block(%d,%d)|rankB=%d" % (N, a, b, rb), "rank-%d(A) x rank-%d(B) block accumulated once" % (a, b),
-                              "eeInteractor::VSiteA<%d>: with rank(B) = %d the rank-%d(A) x rank-%d(B) interaction block is accumulated %d times (required once): the pair energy "
-                              "depends on which site is passed first and disagrees with the point-charge limit" % (N, rb, a, b, len(hits)),
-                              f.loc(hits[0]["node"] if hits else None), sample=(N == 9 and (a, b, rb) in ((2, 1, 1), (1, 2, 2))))
 
 
 def check_size_selection(rep, F):
@@ -413,6 +338,24 @@ def check_interaction_tensor(rep, F):
                       "VSiteA<%d> with rank(B) = %d: the result %s" % (N, rb, ("depends on " + ", ".join(stray)) if stray else "is not linear in B's moments"), g.loc(), sample=(N == 9 and rb == 2))
             if not lin or stray:
                 continue
+            if rb == 0:
+                rep.check(red(J[0, 0] - 1 / R) == 0, "R15.2", "monopole|VSiteA<%d>" % N, "charge-charge entry is q_B / |posB - posA|",
+                          "%s: the charge-charge entry of the interaction vector is %s q_B (required q_B/|posB - posA|)" % (g.qname, J[0, 0]), g.loc(), sample=True)
+            for ra in ranks_a:
+                for cb in range(0, rb + 1):
+                    # how often the (ra x cb) block of the expansion is present: exactly once is required
+                    ref_b = Tref.extract(list(blocks[ra]), list(blocks[cb]))
+                    got_b = J.extract(list(blocks[ra]), list(blocks[cb]))
+                    times = None
+                    for k_ in (1, 0, 2, 3, -1):
+                        if (got_b - k_ * ref_b).applyfunc(red) == sp.zeros(*ref_b.shape):
+                            times = k_
+                            break
+                    rep.check(times == 1, "R15.3", "VSiteA<%d>|block(%d,%d)|rankB=%d" % (N, ra, cb, rb), "rank-%d(A) x rank-%d(B) block accumulated once" % (ra, cb),
+                              "eeInteractor::VSiteA<%d>: with rank(B) = %d the rank-%d(A) x rank-%d(B) interaction block is %s (required once): the pair energy "
+                              "depends on which site is passed first and disagrees with the point-charge limit" % (
+                                  N, rb, ra, cb, ("accumulated %d times" % times) if times is not None else "not a multiple of the expansion's block"),
+                              g.loc(), sample=(N == 9 and (ra, cb, rb) in ((2, 1, 1), (1, 2, 2))))
             for ra in ranks_a:
                 for cb in (0, 1, 2):
                     bad = None
